@@ -8,6 +8,8 @@ CONSTANTS
   NoOpnSnapshot = FALSE
   Kinds = {"bit", "roaring", "rowop"}
   KeyChunks = 2
+  CutClasses = {"inkey", "between", "afterid", "aftersize"}
+  UnrecognisedCuts = {}
   TornTailFails = FALSE
   RoaringTwoWrites = FALSE
   RowOpAsync = FALSE
